@@ -49,6 +49,18 @@ def explore(ck):
         # undisturbed runs
         dd = os.path.join(ck.tools.work, 'dd10_' + c.id); c.materialise(dd, ck.tools.ldbw)
         clean = {cb: run.run_impl(ck.tools, c, cb, datadir=dd) for cb in FILECB}
+        # (e) the same run into a dump folder in which an earlier run of the same range under another --coin has left its final-named files: exit 0 must still mean
+        #     "the final-named files hold THIS run's complete output and no *.tmp is left"
+        c.prior_coin = core.PRIOR.get(c.coin, 'litecoin')
+        again = {cb: run.run_impl(ck.tools, c, cb, datadir=dd) for cb in FILECB}
+        del c.prior_coin
+        for cb in FILECB:
+            a, b = clean[cb], again[cb]; ck.evaluated(); ck.count('runs after an earlier run of the same range'); ck.nontrivial((c.id, cb, 'prior')); bad = []
+            if (b.rc == 0) != (a.rc == 0): bad.append('exit status %s (fresh folder: %s)' % (b.rc, a.rc))
+            if b.rc == 0 and [n for n in b.files if n.endswith('.tmp')]: bad.append('exit 0 but *.tmp left: %s' % [n for n in b.files if n.endswith('.tmp')])
+            if b.rc == 0 and (sorted(b.files) != sorted(a.files) or any(sorted(a.files[n].split(b'\n')) != sorted(b.files[n].split(b'\n')) for n in a.files if n in b.files)):
+                bad.append('exit 0 but the final-named files are not those of the run into a fresh folder: %s' % [n for n in a.files if a.files[n] != b.files.get(n)])
+            if bad: ck.disagreement('%s after an earlier run of the same range with --coin %s in the same dump folder' % (cb, core.PRIOR.get(c.coin, 'litecoin')), '\n'.join(bad), c, in_domain=True)
         for cb in FILECB:
             if clean[cb].rc != 0: ck.disagreement('undisturbed run failed', 'rc=%s' % clean[cb].rc, c); continue
             tot = max(sizes[cb]); lims = {0, 1, 16, 35, tot - 1, tot, tot + 1, 4096}
